@@ -103,12 +103,16 @@ SPEC = {
                   'a concrete violating history). '
                   'System level (Model/ExecSys.v = Plugin.Outcome composed from the C07 / C08 models, Proofs/ExecSysP.v): C09_cycle_no_reexecution (a sequence number that every commit '
                   'report agreed in the GetCommitReports round lists as executed is in no chain report of the cycle); C09_cycle_liveness - the liveness clause proved over one cycle from '
-                  'observation-level hypotheses: quorum f_k+1 for the commit report and for each of its messages, no rival message with a quorum (<= f_k deviating observers), token '
+                  'observation-level hypotheses: quorum f_dest+1 for the commit report and no conflicting report of its chain with one (<= f_dest deviating destination readers; F76 otherwise), quorum '
+                  'f_k+1 for each of its messages, no rival message with a quorum (<= f_k deviating observers), token '
                   'data of the message ready with a quorum per slot and no observation filing more slots (F13e), fewer than f_dest+1 costly flags, not executed, nonce 0, root '
-                  'reproduced, every pending report well formed, the report fits (F14) => all three rounds succeed and the message is in the execute report, whatever else the '
-                  'deviating oracles send; C09_cycle_liveness_nonvacuous (all hypotheses hold on a concrete cycle with a deviating oracle); C09_cycle_liveness_poisoned_refuted (the '
-                  'well-formedness hypothesis is needed: two faulty oracles of seven, F = 2, file a forged report of chain 1 under the key of a chain with f = 1 - no role check, '
-                  'threshold by filing key - and every later round fails; replay on real plugins: VERIF_XS_PROBE=poison); C09_history_cycle (failed rounds in between commit nothing: '
+                  'reproduced, every pending report well formed (a fact about the destination, not about observation lists), the report fits (F14) => all three rounds succeed and the '
+                  'message is in the execute report, whatever else the deviating oracles send; C09_cycle_liveness_nonvacuous (all hypotheses hold on a concrete cycle with a deviating '
+                  'oracle); C09_cycle_liveness_poisoned_unfixed_refuted (F75, repaired: before, two faulty oracles of seven, F = 2, filed a forged report of chain 1 under the key of a '
+                  'chain with f = 1 - no role check, threshold by filing key - and every later round failed; the repaired code refuses / does not agree it); '
+                  'C09_conflicting_versions_unfixed_refuted (F76, repaired: two versions of one report, each with f+1 reporters - one lagging honest reader plus one faulty oracle of four - '
+                  'were both pending and no round succeeded any more; the repaired getCommitReportsOutcome drops both for the cycle); replay on real plugins: VERIF_XS_PROBE=poison / split; '
+                  'C09_history_cycle (failed rounds in between commit nothing: '
                   'the cycle theorems apply to every Filter round of every history). F55 stays outside (observations are inputs)',
     'level_note': 'Trusted: Coq kernel, hand-written model, differential harness. No axioms.',
     'modelled': 'computeRanges, groupByChainSelector, filterOutExecutedMessages, getPendingExecutedReports, and (for the cycle / liveness theorems) the report builder of Model/ExecReport.v; the reader is an input. '
